@@ -271,6 +271,10 @@ def compare_schema(ctx, what, inp, model_out, real_out):
         ctx.count('model-tag:' + model_out.get('tag', '?'))
         return True
     ctx.count('outcome:ok')
+    order = real_out['ok']['order']
+    if any(p in order and order.index(p) > order.index(t['name']) for t in real_out['ok']['tables'] for p in t['parents']):
+        ctx.count('order:pop-branch (a table precedes one of its parents)')
+    if any(t['parents'] for t in real_out['ok']['tables']): ctx.count('order:with-foreign-keys')
     ms = model_schema_json(model_out['ok']); rs = {k: v for k, v in real_out['ok'].items() if k != 'script_all'}
     d = first_diff(ms, rs, 'schema')
     if d:
